@@ -42,6 +42,22 @@ class XControl(L.LDAPControl):
 
 
 @dataclasses.dataclass(frozen=True)
+class YControl(L.LDAPControl):
+    """A second application control, so that two sessions can hold the same NUMBER of registrations of different types."""
+
+    control_type: str = dataclasses.field(init=False, repr=False, default="1.2.3.5")
+    value: t.Optional[bytes] = dataclasses.field(init=False, repr=False, default=None)
+    tag: bytes
+
+    def get_value(self, options: L.ControlOptions) -> t.Optional[bytes]:
+        return self.tag
+
+    @classmethod
+    def unpack(cls, control_type: str, critical: bool, value: t.Optional[bytes], options: L.ControlOptions) -> "YControl":
+        return YControl(critical=critical, tag=value or b"")
+
+
+@dataclasses.dataclass(frozen=True)
 class FFilter(L.LDAPFilter):
     filter_id: int = dataclasses.field(init=False, repr=False, default=1024)
     value: str
@@ -370,6 +386,34 @@ def config_check(sub_a: t.Tuple[str, ...], sub_b: t.Tuple[str, ...]) -> t.List[t
     return out
 
 
+def generations_check(rounds: int = 120) -> t.List[t.Tuple[str, str]]:
+    """Sessions come and go: a new session must not inherit anything from one that was dropped -- in particular
+    not when it lands on the same address with the same number of registrations of a different type."""
+    out: t.List[t.Tuple[str, str]] = []
+    wire_x = L.SearchRequest(1, [XControl(True, 7)], "", L.SearchScope.BASE, L.DereferencingPolicy.NEVER, 0, 0, False, L.FilterPresent("a"), []).pack(OPT)
+    wire_y = L.SearchRequest(2, [YControl(False, b"yy")], "", L.SearchScope.BASE, L.DereferencingPolicy.NEVER, 0, 0, False, L.FilterPresent("a"), []).pack(OPT)
+    for n in range(rounds):
+        # which type a session registers follows an aperiodic bit sequence, so that whatever the period with which
+        # the allocator hands out the same addresses again, neighbours at the same address differ
+        bit = ((n * 2654435761) >> 7) & 1
+        mine, other, wm, wo = (XControl, YControl, wire_x, wire_y) if bit == 0 else (YControl, XControl, wire_y, wire_x)
+        s = L.LDAPServer()
+        if n % 7 != 6:
+            s.register_control(mine)
+        try:
+            a = s.receive(wm)[0].controls[0]
+            b = s.receive(wo)[0].controls[0]
+        except BaseException as e:  # noqa: BLE001
+            out.append((f"generation-decode-raises:{type(e).__name__}", f"session #{n}: {e}"))
+            del s
+            continue
+        want_a = mine if n % 7 != 6 else L.LDAPControl
+        if type(a) is not want_a or type(b) is not L.LDAPControl:
+            out.append(("new-session-inherits-dropped-session", f"session #{n} registered {[mine.__name__] if n % 7 != 6 else []} but decoded its control as {type(a).__name__} and the other as {type(b).__name__}"))
+        del s, a, b
+    return out
+
+
 def _configs(job: t.Tuple[int, int]) -> evid.Local:
     loc = evid.Local()
     subsets = _X["subsets"]
@@ -448,6 +492,10 @@ def run(ctx: evid.Ctx) -> None:
     for (r, h), exp in list(_X["alone"].items())[:: max(1, len(_X["alone"]) // 400)]:
         if alone((r, h)) != exp:
             ctx.violation(f"alone-transcript-changed:{r}:{h[-1]}", f"{r} history {h} no longer behaves as in a pristine process", {"roles": [r, r], "ha": list(h), "hb": [], "order": [0] * len(h)})
+    for k, w in generations_check():
+        ctx.violation(k, w, {"generations": True})
+    ctx.add("states", 120)
+    ctx.add("transitions", 360)
     subsets = [tuple(c) for n in range(4) for c in itertools.combinations("XFA", n)]
     _X["subsets"] = subsets
     for loc in par.pmap(_configs, par.split(len(subsets) ** 2, 16), ctx.seed):
@@ -465,6 +513,9 @@ def run(ctx: evid.Ctx) -> None:
 
 
 def replay(case: t.Dict[str, t.Any], key: t.Optional[str] = None) -> t.Tuple[bool, str]:
+    if case.get("generations"):
+        vs = [v for v in generations_check() if key is None or v[0] == key]
+        return (not vs), "sessions created and dropped in sequence" + "".join(f"\n  {k}: {w}" for k, w in vs[:5])
     if "config" in case:
         vs = config_check(tuple(case["config"][0]), tuple(case["config"][1]))
         vs = [v for v in vs if key is None or v[0] == key]
